@@ -28,12 +28,14 @@ def Pc.held : Pc → Bytes
   | .flush c _ => c.data
   | _ => []
 
-/-- Attribute guard for the data-preserving toxics (the property's "valid attributes"). -/
+/-- The data-preserving toxics — with *any* attribute values: since the repairs of C07
+(guards in `chunk`, in the bandwidth instalment loop and around `rand.Int63n`) no attribute
+value can make them panic, lose or invent a byte. -/
 def Safe : Cfg → Prop
   | .noop => True
-  | .latency _ j => j * 2 < 9223372036854775808      -- jitter*2 does not wrap (jitter ≤ 0 is fine)
-  | .bandwidth r => BwOK r
-  | .slicer a v _ => SlicerOK a v
+  | .latency _ _ => True
+  | .bandwidth _ => True
+  | .slicer _ _ _ => True
   | .slowClose _ => True
   | _ => False
 
@@ -49,7 +51,9 @@ state was entered, needed for the next step not to panic). -/
 def PcWF (cfg : Cfg) : Pc → Prop
   | .out _ (.slicerGap rest offs base _) => ChainOK offs base rest
   | .nap _ (.slicerGap rest offs base _) => ChainOK offs base rest
-  | .nap _ (.bwInstal p _) => match cfg with | .bandwidth r => r * 100 < p.data.length | _ => True
+  | .nap _ (.bwInstal p _) => match cfg with
+    | .bandwidth r => 0 ≤ r ∧ r ≤ Int.tdiv maxInt64 100 ∧ r * 100 < p.data.length
+    | _ => True
   | .idleT _ => match cfg with | .timeout _ => True | _ => False
   | .out _ (.limitAfter _) => match cfg with | .limitData _ => True | _ => False
   | .crash _ => False
@@ -131,14 +135,25 @@ def Conserves (pc pc' : Pc) : Event → Prop
   | .timer _ => pc'.held = pc.held ∨ (∃ c d, pc = .flush c d ∧ pc'.held = [])
   | .interrupt _ => pc'.held = pc.held
 
-theorem bwLoop_ok (r : Int) (h : BwOK r) (p : Chunk) (carry now : Int) :
-    (bwLoop r p carry now).held = p.data ∧ PcWF (.bandwidth r) (bwLoop r p carry now) := by
-  have hw : wrap64 (r * 100) = r * 100 := wrap64_id _ (by have := h.pos; omega) h.nowrap
+theorem tdiv_max_100 : Int.tdiv maxInt64 100 = 92233720368547758 := by decide
+theorem tdiv_max_2 : Int.tdiv maxInt64 2 = 4611686018427387903 := by decide
+
+/-- The (repaired) loop test of the bandwidth toxic, for every rate: whatever it decides, the
+chunk is held whole and the instalment state is only entered with a non-negative rate whose
+100 ms budget fits an int64 and is smaller than the chunk. -/
+theorem bwLoop_ok (r : Int) (p : Chunk) (carry now : Int) :
+    (bwLoop .fixed r p carry now).held = p.data ∧ PcWF (.bandwidth r) (bwLoop .fixed r p carry now) := by
   unfold bwLoop
-  rw [hw]
-  split
-  · rename_i hlt; exact ⟨rfl, by simpa [PcWF] using hlt⟩
-  · exact ⟨rfl, by simp [PcWF]⟩
+  simp only
+  by_cases hc : ((decide (r ≥ 0) && decide (r ≤ Int.tdiv maxInt64 100)) && decide ((p.data.length : Int) > wrap64 (r * 100))) = true
+  · rw [if_pos hc]
+    simp only [Bool.and_eq_true, decide_eq_true_eq] at hc
+    obtain ⟨⟨h0, h1⟩, h2⟩ := hc
+    have hw : wrap64 (r * 100) = r * 100 := wrap64_id _ (by omega) (by rw [tdiv_max_100] at h1; omega)
+    rw [hw] at h2
+    exact ⟨rfl, by simp only [PcWF]; exact ⟨h0, h1, by omega⟩⟩
+  · rw [if_neg hc]
+    exact ⟨rfl, by simp [PcWF]⟩
 
 /-- **Stage conservation.** For every data-preserving toxic with valid attributes, every
 event that the stage can receive at a well-formed program counter leads to a well-formed
@@ -184,26 +199,28 @@ theorem step_conserves (cfg : Cfg) (hs : Safe cfg) (st : StubSt) (pc : Pc) (ev :
         | noop => simp [onChunk] at h; obtain ⟨_, rfl⟩ := h; simp [PcWF, Conserves, Pc.held, Next.held]
         | slowClose d => simp [onChunk] at h; obtain ⟨_, rfl⟩ := h; simp [PcWF, Conserves, Pc.held, Next.held]
         | latency l j =>
-          simp only [Safe] at hs
           simp only [onChunk] at h
-          by_cases hj : j > 0
-          · have hw : wrap64 (j * 2) = j * 2 := wrap64_id _ (by omega) hs
+          by_cases hj : (decide (j > 0) && decide (j ≤ Int.tdiv maxInt64 2)) = true
+          · have hj' : 0 < j ∧ j ≤ Int.tdiv maxInt64 2 := by simpa using hj
+            rw [tdiv_max_2] at hj'
+            have hw : wrap64 (j * 2) = j * 2 := wrap64_id _ (by omega) (by omega)
             have hn : ¬ (j * 2 ≤ 0) := by omega
             simp only [hj, if_true, hw, hn, if_false] at h
             cases draws <;> (simp at h; obtain ⟨_, rfl⟩ := h; simp [PcWF, Conserves, Pc.held, Wake.held])
-          · simp only [hj, if_false] at h
+          · simp only [hj, Bool.false_eq_true, if_false] at h
             simp at h; obtain ⟨_, rfl⟩ := h; simp [PcWF, Conserves, Pc.held, Wake.held]
         | bandwidth r =>
-          simp only [Safe] at hs
           simp only [onChunk] at h
           simp at h
           obtain ⟨_, rfl⟩ := h
-          have := bwLoop_ok r hs c (if r ≤ 0 then 0 else carry + Int.tdiv ((c.data.length : Int) * ms) r) now
+          have := bwLoop_ok r c (if r ≤ 0 then 0 else carry + Int.tdiv ((c.data.length : Int) * ms) r) now
           exact ⟨this.2, rfl, this.1⟩
         | slicer a v d =>
-          simp only [Safe] at hs
           simp only [onChunk] at h
-          obtain ⟨offs, rest, hch, hchain, hp⟩ := C12_terminates a v hs c.data.length draws
+          obtain ⟨offs, rest, hch, hchain, hp⟩ :=
+            chunk_total a v (slicerFuel c.data.length) 0 c.data.length draws (by omega) (by unfold slicerFuel; omega)
+          have hbeq : (Variant.fixed == Variant.fixed) = true := by decide
+          simp only [hbeq] at h
           simp only [hch] at h
           simp at h
           obtain ⟨_, rfl⟩ := h
@@ -214,7 +231,7 @@ theorem step_conserves (cfg : Cfg) (hs : Safe cfg) (st : StubSt) (pc : Pc) (ev :
               simp only [ChainOK]
               refine ⟨by simpa using hchain, ?_⟩
               intro p hpm
-              exact (hp p hpm).2.2
+              exact hp p hpm
           have := slicerSend_ok c.data 0 c.ts offs hok
           exact ⟨this.2.1 _, rfl, this.1⟩
         | timeout t => simp [Safe] at hs
@@ -238,8 +255,7 @@ theorem step_conserves (cfg : Cfg) (hs : Safe cfg) (st : StubSt) (pc : Pc) (ev :
         cases cfg <;> simp at h
         rename_i r
         obtain ⟨_, rfl⟩ := h
-        simp only [Safe] at hs
-        have := bwLoop_ok r hs p carry now
+        have := bwLoop_ok r p carry now
         exact ⟨this.2, c, rfl, by rw [this.1]; rfl⟩
       | limitAfter n =>
         cases cfg <;> simp [PcWF] at hwf
@@ -267,18 +283,20 @@ theorem step_conserves (cfg : Cfg) (hs : Safe cfg) (st : StubSt) (pc : Pc) (ev :
       | bwInstal p carry =>
         cases cfg <;> simp [step] at h
         rename_i r
-        simp only [Safe] at hs
-        have hw : wrap64 (r * 100) = r * 100 := wrap64_id _ (by have := hs.pos; omega) hs.nowrap
-        have hlen : r * 100 < p.data.length := by simpa [PcWF] using hwf
+        have hwf' : 0 ≤ r ∧ r ≤ Int.tdiv maxInt64 100 ∧ r * 100 < p.data.length := by simpa [PcWF] using hwf
+        rw [tdiv_max_100] at hwf'
+        have hs : 0 ≤ r := hwf'.1
+        have hw : wrap64 (r * 100) = r * 100 := wrap64_id _ (by omega) (by omega)
+        have hlen : r * 100 < p.data.length := hwf'.2.2
         rw [hw] at h
         have h1 : slice p.data 0 (r * 100) = some (p.data.take (r * 100).toNat) := by
           unfold slice
-          have : (0:Int) ≤ 0 ∧ (0:Int) ≤ r * 100 ∧ r * 100 ≤ (p.data.length : Int) := ⟨by omega, by have := hs.pos; omega, by omega⟩
+          have : (0:Int) ≤ 0 ∧ (0:Int) ≤ r * 100 ∧ r * 100 ≤ (p.data.length : Int) := ⟨by omega, by omega, by omega⟩
           simp [this]
         have h2 : slice p.data (r * 100) p.data.length = some (p.data.drop (r * 100).toNat) := by
           unfold slice
           have : (0:Int) ≤ r * 100 ∧ r * 100 ≤ (p.data.length : Int) ∧ (p.data.length : Int) ≤ p.data.length :=
-            ⟨by have := hs.pos; omega, by omega, by omega⟩
+            ⟨by omega, by omega, by omega⟩
           simp only [this, and_self, if_true]
           congr 1
           apply List.take_of_length_le
